@@ -87,6 +87,10 @@ def parseFlags? (s : String) : Option Midgard.ObjCache.Flags :=
 end O
 
 def handle : List String → Option String
+  | "c08" :: "objcount" :: fl :: ops => do
+    let fl ← O.parseFlags? fl
+    let ops ← ops.mapM O.parseOp?
+    pure (toString (Midgard.ObjCache.run fl {} ops).1.objs.length)
   | "c08" :: "obj" :: fl :: ops => do
     let fl ← O.parseFlags? fl
     let ops ← ops.mapM O.parseOp?
